@@ -36,6 +36,8 @@ RULE = ("one device with an instance of every registered object type whose prope
         "unknown objects).  A case is one request; after every acknowledged write a read-back, after every refused write a "
         "full snapshot comparison")
 
+CMD_PROPS = ("presentValue", "priorityArray", "relinquishDefault")
+
 SKIP_PROPS = {"localDate", "localTime", "propertyList", "activeCovSubscriptions", "objectList", "protocolServicesSupported",
               "protocolObjectTypesSupported", "objectIdentifier", "objectName", "objectType"}
 
@@ -64,6 +66,7 @@ class World:
         self.rng = rng
         CLOCK.reset()
         self.lan = FaultNet("lan", Plan())
+        self.lan.frame_cap = 10 ** 9      # one long session of many requests: the per-transaction frame budget of fnet does not apply
         self.dev = ServiceDevice(self.lan, 5, maxApduLengthAccepted=1476)
         self.client = SyncClient(self.lan, 1, maxApduLengthAccepted=1476)
         self.objs = {}
@@ -96,12 +99,42 @@ class World:
                 continue
             self.objs[(otype, 1)] = obj
             built += 1
+        # commandable objects (instance 2): presentValue is commanded through the priority array
+        self.cmd = {}
+        from .c17 import cmd_classes, registered
+        for cls in cmd_classes():
+            sub = registered(cls)
+            otype = sub.objectType
+            try:
+                obj = sub(objectIdentifier=(otype, 2), objectName="c-" + otype)
+            except Exception as err:
+                run.seen("cannot_build_object", "cmd:%s:%s" % (otype, type(err).__name__))
+                continue
+            for pid, prop in sub._properties.items():
+                if pid in SKIP_PROPS or pid in CMD_PROPS or pid in ("minimumOnTime", "minimumOffTime") or obj._values.get(pid) is not None:
+                    continue
+                if rng.random() < 0.5:
+                    continue
+                try:
+                    obj._values[pid] = S.gen_element(rng, prop.datatype, 1)
+                except Exception:
+                    run.count("cannot_populate_property")
+            try:
+                self.dev.app.add_object(obj)
+            except Exception:
+                continue
+            self.objs[(otype, 2)] = obj
+            dt = sub._properties["presentValue"].datatype
+            self.cmd[(otype, 2)] = {"dt": dt, "slots": [None] * 17, "default": S.norm(dt, obj._values.get("relinquishDefault")),
+                                    "choice": [b for b in sub.__mro__ if getattr(b, "__name__", "") == "_Commando"][0]._pv_choice}
+            built += 1
+        run.counters["commandable_objects_on_device"] = max(run.counters.get("commandable_objects_on_device", 0), len(self.cmd))
         run.counters["object_types_on_device"] = max(run.counters.get("object_types_on_device", 0), built)
         CLOCK.settle()
         # the device declares a random half of the properties writable (class-level Property objects; this process only)
         for oid, obj in self.objs.items():
             for pid, prop in obj._properties.items():
-                if pid not in SKIP_PROPS:
+                if pid not in SKIP_PROPS and not (oid in self.cmd and pid in CMD_PROPS):
                     prop.mutable = rng.random() < 0.5
 
     def snapshot(self):
@@ -226,6 +259,7 @@ class World:
         """value_dt: the datatype the value was generated from (may be the wrong one)"""
         obj = self.objs.get(oid)
         prop = obj._properties.get(pid) if obj is not None else None
+        cmd = self.cmd.get(oid) if pid == "presentValue" else None
         req = WritePropertyRequest(objectIdentifier=oid, propertyIdentifier=pid, destination=self.dev.address)
         if index is not None:
             req.propertyArrayIndex = index
@@ -243,10 +277,8 @@ class World:
             self.run.count("requests_not_encodable")
             return None
         tags = req.propertyValue.tagList.tagList
-        if len(tags) == 1 and tags[0].tagClass == 0 and tags[0].tagNumber == 0 and not (prop is not None and prop.datatype is Null):
-            # an application Null is a relinquish command for the library whatever the property: outside the generated domain
-            self.run.count("null_encoded_values_skipped")
-            return None
+        if len(tags) == 1 and tags[0].tagClass == 0 and tags[0].tagNumber == 0:
+            self.run.count("null_valued_writes")
         before = self.snapshot()
         try:
             ans = self.client.call(req)
@@ -280,6 +312,12 @@ class World:
                         causes.append(("property", "valueOutOfRange"))
                 right = (value_dt is dt and index is None) or (index not in (None, 0) and issubclass(dt, Array) and value_dt is dt.subtype) or \
                         (index == 0 and issubclass(dt, Array) and value_dt is Unsigned)
+                if cmd is not None and value_dt is Null and index is None:
+                    right = True              # relinquish
+                if right and inspect.isclass(value_dt) and issubclass(value_dt, Enumerated) and isinstance(value, int) \
+                        and value not in value_dt.enumerations.values():
+                    right = False             # a number the enumeration does not define: refused (out of range) or stored as it is
+                    self.run.count("undefined_enumeration_numbers_written")
                 if not right:
                     causes.append("datatype")
         if isinstance(ans, SimpleAckPDU):
@@ -287,11 +325,20 @@ class World:
             if causes and causes != ["datatype"]:
                 self.run.violation("write-acknowledged-although-it-must-be-refused/" + str(causes[0][1] if causes[0] != "datatype" else "datatype"), dict(w, causes=repr(causes)))
                 return False
+            if causes == ["datatype"] and cmd is not None:
+                self.run.violation("wrong-typed-command-acknowledged", dict(w, causes=repr(causes)))
+                return False
             if causes == ["datatype"]:
                 # a value of another datatype was accepted: it must at least not corrupt the property for reads
                 self.run.count("wrong_typed_writes_accepted")
                 r = self.read(oid, pid, index, dict(wit, after_wrong_typed_write=True))
                 return r
+            if cmd is not None:
+                return self.commanded(oid, cmd, value_dt, value, priority, before, after, w)
+            if index == 0 and issubclass(prop.datatype, Array) and not issubclass(prop.datatype.subtype, Atomic):
+                grown = self.grown_array(oid, pid, obj, prop, int(value), before, w)
+                if grown is not None:
+                    return grown
             # exactly the target changed
             changed = [k for k in after if after[k] != before.get(k)]
             others = [k for k in changed if k != (oid, pid)]
@@ -352,6 +399,76 @@ class World:
             return False
         return True
 
+    def grown_array(self, oid, pid, obj, prop, new_n, before, w):
+        """an array of constructed elements made longer through index 0: the new elements must be readable"""
+        old = before.get((oid, pid))
+        old_n = len(old) - 1 if old else 0
+        if new_n <= old_n:
+            return None
+        self.run.count("constructed_arrays_grown")
+        req = ReadPropertyRequest(objectIdentifier=oid, propertyIdentifier=pid, destination=self.dev.address)
+        req.propertyArrayIndex = new_n
+        ans = self.client.call(req)
+        if isinstance(ans, ReadPropertyACK):
+            return None
+        if (isinstance(ans, ErrorPDU) and (ans.errorClass, ans.errorCode) == ("device", "operationalProblem")) or isinstance(ans, RejectPDU):
+            # (an empty sequence raises MissingRequiredParameter, which the application answers with a reject)
+            sw = [r for r in CLOCK.swallowed.records if r["exc"]][-1:]
+            self.run.violation("array-of-constructed-elements-grown-through-index-0-gets-elements-that-cannot-be-encoded",
+                               dict(w, subtype=prop.datatype.subtype.__name__, old_length=old_n, new_length=new_n, swallowed=sw))
+            # put the array back (harness reset) so that the session can go on with a readable device
+            obj._values[pid].fix_length(old_n)
+            return True
+        self.run.violation("new-array-element-not-readable/" + type(ans).__name__, dict(w, new_length=new_n))
+        return False
+
+    def commanded(self, oid, cmd, value_dt, value, priority, before, after, w):
+        """an acknowledged command / relinquish of a commandable present value: the reference priority array decides what is read"""
+        self.run.count("commands_acknowledged")
+        dt = cmd["dt"]
+        slot = priority or 16
+        cmd["slots"][slot] = None if value_dt is Null else S.norm(dt, value)
+        active = [x for x in cmd["slots"][1:] if x is not None]
+        want_pv = active[0] if active else cmd["default"]
+        others = [k for k in after if after[k] != before.get(k) and k not in ((oid, "presentValue"), (oid, "priorityArray"))]
+        if others:
+            self.run.violation("write-changed-another-property", dict(w, others=[repr(k) for k in others[:4]]))
+            return False
+        for (pid, index) in (("presentValue", None), ("priorityArray", slot), ("priorityArray", None)):
+            req = ReadPropertyRequest(objectIdentifier=oid, propertyIdentifier=pid, destination=self.dev.address)
+            if index is not None:
+                req.propertyArrayIndex = index
+            ans = self.client.call(req)
+            self.run.count("read_backs")
+            if not isinstance(ans, ReadPropertyACK):
+                sw = [r for r in CLOCK.swallowed.records if r["exc"]][-1:]
+                self.run.violation("read-after-acknowledged-command-fails/" + pid + ("/%s@%s" % (sw[0]["exc"], (sw[0]["origin"] or "?").split(":")[1]) if sw else ""),
+                                   dict(w, answer=type(ans).__name__, read=(pid, index), swallowed=sw))
+                return False
+            try:
+                got = self.decode_read(ans, oid, pid, index)
+            except Exception as err:
+                self.run.violation("read-back-not-decodable/" + type(err).__name__, dict(w, read=(pid, index), error=repr(err)[:100]))
+                return False
+            if pid == "presentValue":
+                if got != want_pv:
+                    self.run.violation("commanded-present-value-is-not-the-highest-active-priority", dict(w, got=repr(got), expected=repr(want_pv),
+                                                                                                       slots=repr(cmd["slots"][1:])))
+                    return False
+            else:
+                slots = [got] if index is not None else list(got[1:])
+                wants = [cmd["slots"][slot]] if index is not None else cmd["slots"][1:]
+                if len(slots) != len(wants):
+                    self.run.violation("priority-array-has-not-16-slots", dict(w, got=repr(got)[:300]))
+                    return False
+                for g, x in zip(slots, wants):
+                    exp = ("choice", "PriorityValue", ("null", ("null",))) if x is None else ("choice", "PriorityValue", (cmd["choice"], x))
+                    if g != exp and not (x is not None and g[:2] == exp[:2] and len(g) == 3 and g[2][1][1:] == x[1:]):
+                        self.run.violation("priority-array-slot-differs-from-commands", dict(w, read=(pid, index), got=repr(g)[:200], expected=repr(exp)[:200]))
+                        return False
+        self.run.count("commands_checked")
+        return True
+
     # ------------------------------------------------------------------
     def rpm(self, specs, wit):
         """specs: list of (oid, [(pid, index)])"""
@@ -372,7 +489,8 @@ class World:
                 return True
             sw = [r for r in CLOCK.swallowed.records if r["exc"]][-1:]
             self.run.violation("rpm-not-answered-with-ack/" + type(ans).__name__ + ("/%s@%s" % (sw[0]["exc"], (sw[0]["origin"] or "?").split(":")[1]) if sw else ""),
-                               dict(w, swallowed=sw))
+                               dict(w, swallowed=sw, reason=getattr(ans, "apduAbortRejectReason", None), specs_full=repr(specs),
+                                    frames=[f["data"].hex() for f in self.lan.frames[-4:]] if hasattr(self.lan, "frames") else None))
             return False
         if len(ans.listOfReadAccessResults) != len(specs):
             self.run.violation("rpm-result-count-differs", w)
@@ -421,6 +539,9 @@ class World:
                         self.run.violation("rpm-element-error-differs-from-read-property", dict(w, object=oid, property=pid, index=ix, got=ec, read_property=repr(e)[:200]))
                         return False
                 else:
+                    if e[0] in ("other", "unsendable", "undecodable"):
+                        self.run.count("differential_reads_without_comparable_answer")
+                        continue            # the single read was aborted (too long for one APDU ...): nothing to compare with
                     if e[0] != "value":
                         self.run.violation("rpm-element-value-where-read-property-gives-error", dict(w, object=oid, property=pid, index=ix, read_property=repr(e)))
                         return False
@@ -440,15 +561,38 @@ class World:
         return True
 
 
-def session(run, rng, nops):
+def enum_numbers(klass):
+    return [v for v in klass.enumerations.values()]
+
+
+def session(run, rng, nops, systematic=False):
     w = World(run, rng)
     oids = sorted(w.objs)
     all_pids = sorted(PropertyIdentifier.enumerations)
+    if systematic:
+        # every present property of every object once: whole, and for arrays index 0, 1, n, n+1
+        for oid in oids:
+            obj = w.objs[oid]
+            for pid, prop in sorted(obj._properties.items()):
+                if pid in ("localDate", "localTime") or obj._values.get(pid) is None:
+                    continue
+                run.case(("sys", oid, pid), sample=None)
+                if w.read(oid, pid, None, {"systematic": True}) is False:
+                    return
+                if issubclass(prop.datatype, Array):
+                    n = len(obj._values[pid].value) - 1
+                    for ix in sorted({0, 1, n, n + 1}):
+                        run.case(("sys", oid, pid, ix), sample=None)
+                        if w.read(oid, pid, ix, {"systematic": True}) is False:
+                            return
+        run.count("systematic_sweeps")
     for k in range(nops):
         wit = {"op": k}
         oid = rng.choice(oids) if rng.random() < 0.93 else rng.choice([("analogValue", 77), ("device", 5), ("file", 9)])
         obj = w.objs.get(oid) or (w.dev.device if oid == ("device", 5) else None)
-        if obj is not None and rng.random() < 0.9:
+        if oid in w.cmd and rng.random() < 0.6:
+            pid = rng.choice(CMD_PROPS + ("presentValue", "presentValue"))
+        elif obj is not None and rng.random() < 0.9:
             pids = [p for p in obj._properties if p not in ("localDate", "localTime")]
             present = [p for p in pids if obj._values.get(p) is not None]
             pid = rng.choice(present) if present and rng.random() < 0.75 else rng.choice(pids)
@@ -476,10 +620,16 @@ def session(run, rng, nops):
                 if dt is not None and index is not None and issubclass(dt, Array):
                     target = Unsigned if index == 0 else dt.subtype
                 if target is None or rng.random() < 0.2:
-                    target = rng.choice([Real, CharacterString, Unsigned, Boolean, ObjectIdentifier])
+                    target = rng.choice([Real, CharacterString, Unsigned, Boolean, ObjectIdentifier, Null])
+                if oid in w.cmd and pid == "presentValue" and rng.random() < 0.3:
+                    target = Null
                 try:
                     if target is Unsigned and index == 0:
                         val = rng.choice([0, 1, 2, 5])
+                    elif target is Null:
+                        val = ()
+                    elif inspect.isclass(target) and issubclass(target, Enumerated) and rng.random() < 0.15:
+                        val = max(enum_numbers(target)) + rng.choice([1, 3, 40])      # a number the enumeration does not define
                     else:
                         val = S.gen_element(rng, target, 1)
                 except Exception:
@@ -522,12 +672,12 @@ def main():
     thorough = run.tier == "thorough"
     if thorough and run.args.shard is None:
         run.run_shards("rv.props.c15", timeout=3400)
-        return run.finish(require=("sessions", "reads", "writes_acknowledged", "writes_refused", "read_backs", "rpm_elements_compared"))
+        return run.finish(require=("sessions", "reads", "writes_acknowledged", "writes_refused", "read_backs", "rpm_elements_compared", "commands_checked", "null_valued_writes"))
     rng = run.rng("c15")
     for i in range((640 if thorough else 12) // (run.shard[1] if thorough else 1) + 1):
         run.sample({"session": i, "requests": 300 if thorough else 150})
-        session(run, rng, 300 if thorough else 150)
-    run.finish(require=("sessions", "reads", "writes_acknowledged", "writes_refused", "read_backs", "rpm_elements_compared"))
+        session(run, rng, 300 if thorough else 150, systematic=(i == 0 or (thorough and i % 4 == 0)))
+    run.finish(require=("sessions", "reads", "writes_acknowledged", "writes_refused", "read_backs", "rpm_elements_compared", "commands_checked", "null_valued_writes"))
 
 
 if __name__ == "__main__":
